@@ -65,6 +65,7 @@ type HarnessResult struct {
 	Forks        int64
 	Truncated    bool
 	BranchQ      int64
+	ForkSites    map[string]int
 	Params       map[string]int
 	AssertQ      int64
 }
@@ -84,6 +85,7 @@ type ExploreOpts struct {
 	SampleCap  int
 	Cfg        Config
 	FindingCap int // per (label,class)
+	Progress   bool
 }
 
 // Explore runs every path of the harness (work list of decision prefixes shared by workers).
@@ -204,11 +206,20 @@ func Explore(prog *Program, harness string, opts ExploreOpts) (*HarnessResult, e
 		res.Solver.Errors += st.Errors
 		res.Solver.Time += st.Time
 		res.Solver.Restarts += st.Restarts
+		if e.solver.LastError != "" && len(res.EngineErrors) < 20 {
+			res.EngineErrors = append(res.EngineErrors, "solver: "+e.solver.LastError)
+		}
 		res.Forks += e.Stats.Forks
 		res.BranchQ += e.Stats.BranchQueries
 		res.AssertQ += e.Stats.AssertQueries
 		for k := range e.Stats.FnSeen {
 			res.Functions[k] = true
+		}
+		if res.ForkSites == nil {
+			res.ForkSites = map[string]int{}
+		}
+		for k, v := range e.Stats.ForkSites {
+			res.ForkSites[k] += v
 		}
 		if res.Params == nil {
 			res.Params = map[string]int{}
@@ -220,6 +231,22 @@ func Explore(prog *Program, harness string, opts ExploreOpts) (*HarnessResult, e
 			res.Intrinsics[k] = true
 		}
 		mu.Unlock()
+	}
+	if opts.Progress {
+		done := make(chan struct{})
+		defer close(done)
+		go func() {
+			for {
+				select {
+				case <-done:
+					return
+				case <-time.After(5 * time.Second):
+					mu.Lock()
+					fmt.Printf("  .. %s paths=%d queue=%d active=%d steps=%d findings=%d ends=%v\n", harness, res.Paths, len(work), active, res.Steps, len(res.Findings), res.Ends)
+					mu.Unlock()
+				}
+			}
+		}()
 	}
 	var wg sync.WaitGroup
 	for i := 0; i < opts.Workers; i++ {
